@@ -69,12 +69,30 @@ class Impl:
         self.tmp = tmp
         self.models = []      # creation index -> Model interface (or None for a failed read)
         self.saved = {}
+        self.template = None
+        self.shown = {}       # id(pandas object) -> (the object, its text): contents never change in a session
         self.nio = {}         # creation index -> number of io names handed out
 
     def saved_path(self, name, broken):
         key = (name, broken)
         if key in self.saved:
             return self.saved[key]
+        # the saved model is built and written once per session (the first `read`); the other names are copies
+        # of its folder with the name patched
+        path = os.path.join(self.tmp, "saved_%s_%d" % (name, broken))
+        if self.template is None:
+            self.template = self._write_template()
+        shutil.copytree(self.template, path)
+        init = os.path.join(path, "__init__.py")
+        src = open(init).read().replace('_name = "Zsaved"', '_name = "%s"' % name)
+        open(init, "w").write(src)
+        if broken:
+            with open(os.path.join(path, "S", "__init__.py"), "a") as f:
+                f.write("\ndef broken(:\n")
+        self.saved[key] = path
+        return path
+
+    def _write_template(self):
         # build a model on the side, write it, close it, restore the namers: the session under
         # test must not see it
         sysm = mx.core.mxsys
@@ -89,7 +107,7 @@ class Impl:
             # IOSpecs with relative paths (files inside the saved folder): every model read from it gets its own
             s.new_pandas("df", "data/df.csv", _frame(7), file_type="csv")
             m.new_module("mod", "mod/mod.py", self.module_source())
-            path = os.path.join(self.tmp, "saved_%s_%d" % (name, broken))
+            path = os.path.join(self.tmp, "saved_template")
             m.write(path)
             m.close()
         sysm._models.clear()
@@ -97,13 +115,6 @@ class Impl:
         sysm.currentmodel = keep[1]
         sysm._modelnamer._AutoNamer__last_postfix = keep[2]
         sysm._backupnamer._AutoNamer__last_postfix = keep[3]
-        init = os.path.join(path, "__init__.py")
-        src = open(init).read().replace('_name = "Zsaved"', '_name = "%s"' % name)
-        open(init, "w").write(src)
-        if broken:
-            with open(os.path.join(path, "S", "__init__.py"), "a") as f:
-                f.write("\ndef broken(:\n")
-        self.saved[key] = path
         return path
 
     def index_of(self, model):
@@ -273,6 +284,7 @@ class Impl:
         """public description of one model (for the isolation oracle): definitions, values, and what the model
         keeps in files - `iospecs` (kind, file, file type, sheet / range, the names bound to the value) and
         `get_spec` of every file-backed value under every name"""
+        _show = self.show
         d = {"name": None, "refs": {k: _show(v) for k, v in m.refs.items() if k != "__builtins__"}, "spaces": {}}
         for sn, s in m.spaces.items():
             d["spaces"][sn] = {
@@ -302,6 +314,14 @@ class Impl:
                 except Exception as e:
                     d["spec_of"]["%s.%s" % (sn, k)] = "ERROR: %s" % e
         return d
+
+    def show(self, v):
+        if isinstance(v, (pd.DataFrame, pd.Series)):
+            hit = self.shown.get(id(v))
+            if hit is None or hit[0] is not v:
+                hit = self.shown[id(v)] = (v, _show(v))
+            return hit[1]
+        return _show(v)
 
     def show_path(self, p):
         p = str(p)
